@@ -839,3 +839,61 @@ func VerifC15PassthroughMapped() {
 	vassert(rerr == nil, "the run succeeds")
 	vassert(got.A == x && got.B == "t" && out == "t", "the successor of the pass-through receives exactly the mapped values")
 }
+
+type c15MEInner struct{ A string }
+type c15MEOuter struct {
+	In  c15MEInner
+	Any any
+	P   *c15MEInner
+}
+
+// A target path that goes through a map element of (non-pointer or pointer) struct type and then further down - a
+// nested struct field, an any-typed field expanded to a map, a pointer field: the mapped value arrives at exactly that
+// path, also next to a second mapping into the same element.
+func VerifC15MapElemStruct() {
+	ctx := context.Background()
+	vcfg("fifo", 1)
+	vcfg("selectfirst", 1)
+	x := vsymStr("x")
+	kind := vchoose("kind", 4)
+	second := vchoose("second", 2) == 1
+	if kind < 3 {
+		wf := NewWorkflow[map[string]any, map[string]c15MEOuter]()
+		var ms []*FieldMapping
+		switch kind {
+		case 0:
+			ms = append(ms, MapFieldPaths(FieldPath{"x"}, FieldPath{"key", "In", "A"}))
+		case 1:
+			ms = append(ms, MapFieldPaths(FieldPath{"x"}, FieldPath{"key", "Any", "k"}))
+		case 2:
+			ms = append(ms, MapFieldPaths(FieldPath{"x"}, FieldPath{"key", "P", "A"}))
+		}
+		if second {
+			ms = append(ms, MapFieldPaths(FieldPath{"y"}, FieldPath{"other", "In", "A"}))
+		}
+		wf.End().AddInput(START, ms...)
+		r, err := wf.Compile(ctx)
+		vassert(err == nil, "workflow compiles")
+		out, rerr := r.Invoke(ctx, map[string]any{"x": x, "y": "w"})
+		vassert(rerr == nil, "the run succeeds")
+		switch kind {
+		case 0:
+			vassert(out["key"].In.A == x, "a value mapped below a struct-typed map element arrives in the nested struct field")
+		case 1:
+			m, _ := out["key"].Any.(map[string]any)
+			vassert(m["k"] == x, "a value mapped below a struct-typed map element arrives under the key of its any-typed field")
+		case 2:
+			vassert(out["key"].P != nil && out["key"].P.A == x, "a value mapped below a struct-typed map element arrives behind its pointer field")
+		}
+		if second {
+			vassert(out["other"].In.A == "w", "and so does a second mapping into another element")
+		}
+		return
+	}
+	wf := NewWorkflow[map[string]any, map[string]*c15MEOuter]()
+	wf.End().AddInput(START, MapFieldPaths(FieldPath{"x"}, FieldPath{"key", "In", "A"}))
+	r, err := wf.Compile(ctx)
+	vassert(err == nil, "workflow compiles")
+	out, rerr := r.Invoke(ctx, map[string]any{"x": x})
+	vassert(rerr == nil && out["key"] != nil && out["key"].In.A == x, "a value mapped below a pointer-typed map element arrives in the nested struct field")
+}
